@@ -149,10 +149,13 @@ def _run(chk, tier, rng, binary, gdir):
                           "srcname": "file:" + os.path.basename(path), "nref": L, "maxcells": maxcells, "via": "node"})
     faccases = []
     for fam, dim in SHAPES:
-        facs = [("unitcube", {"fac": "unitcube", "level": 1}, 1 << dim if fam == "hypercube" else (8 if dim == 2 else 6 * 12))]
+        # cells of the factory meshes: unit cube = 1 (hypercube), 4 triangles, 24 tetrahedra; structured 3x2(x2) likewise per cube
+        per = 1 if fam == "hypercube" else (4 if dim == 2 else 24)
+        mult = 12 if (fam, dim) == ("simplex", 3) else (1 << dim)
+        facs = [("unitcube", {"fac": "unitcube", "level": 1}, per * mult)]
         if tier == "thorough":
-            facs.append(("unitcube2", {"fac": "unitcube", "level": 2}, 64 * 12 if (fam, dim) == ("simplex", 3) else 64))
-        facs.append(("struct", {"fac": "struct", "nx": 3, "ny": 2, "nz": 2}, 12 * (6 if fam == "simplex" and dim == 3 else 2)))
+            facs.append(("unitcube2", {"fac": "unitcube", "level": 2}, per * mult * mult))
+        facs.append(("struct", {"fac": "struct", "nx": 3, "ny": 2, "nz": 2}, per * (6 if dim == 2 else 12)))
         if dim == 2:
             facs.append(("star", {"fac": "star"}, 8))
         for nm, src, nc in facs:
